@@ -6,6 +6,8 @@ import Dcg.Proofs.TemplateCheckBlockB
 import Dcg.Proofs.TemplateCheckBlockC
 import Dcg.Proofs.TemplateFixture
 import Dcg.Gen.CodeSites
+import Dcg.Gen.LoopSites
+import Dcg.Proofs.Loops
 /-
 C01 — generation terminates and every emitted module is valid Python.
 
@@ -67,6 +69,68 @@ theorem growing_bounded_stabilises (U : Nat) (sz : Nat → Nat)
 example : ∃ i, i ≤ 3 ∧ (fun n => min n 2) (i + 1) = (fun n => min n 2) i :=
   growing_bounded_stabilises 3 (fun n => min n 2)
     (by intro i; show min i 2 ≤ min (i + 1) 2; omega) (by intro i; show min i 2 ≤ 3; omega)
+
+/-! ### The fix-point loops as they are in the code
+
+`growing_bounded_stabilises` is the abstract argument; the theorems below tie it to the sources.
+`Gen/LoopSites` lists, from the AST of `parser/jsonschema.py` and `parser/openapi.py` as they are on
+this run, every `while` loop and every parameterless self-recursion with the exits it has. -/
+
+/-- **Every fix-point loop of the parsers has an exit that does not depend on the growth of
+`results`.** Each loop is a self-recursion (bounded by the interpreter's recursion limit:
+`recursion_on_count_ends`) or has a reviewed exit on a quantity that the document bounds
+(`setUnchanged`: the reserved `$ref` set is what it was after the previous pass — the hypothesis
+`bound` of `growing_bounded_stabilises` holds for it because `reserved_refs_only_grow`; or an
+explicit iteration limit).  A loop whose only exit is "this pass appended no model"
+(`while model_count != len(self.results)`) is not accepted: `results` is not bounded by the document
+(`count_exit_alone_is_no_bound`).  Any other shape the translator meets is `other:…` and not accepted
+either.  There are such loops (the list is not empty). -/
+theorem fixpoint_loops_have_independent_exit :
+    Dcg.Gen.LoopSites.loopSites.all Dcg.Model.Loops.independentExit = true ∧
+    Dcg.Gen.LoopSites.loopSites ≠ [] := by decide
+
+/-- `self.reserved_refs` is created once and only ever added to (no `remove`, `discard`, `clear`,
+`pop`, re-assignment or `del` anywhere in the parsers): the reserved set of a file only grows —
+`mono` of `growing_bounded_stabilises`, as an obligation on the sources instead of an assumption. -/
+theorem reserved_refs_only_grow :
+    Dcg.Gen.LoopSites.reservedRefsMutations.all Dcg.Model.Loops.growsOnly = true ∧
+    Dcg.Gen.LoopSites.reservedRefsMutations ≠ [] := by decide
+
+/-- **A repetition written as self-recursion ends** — for every pass function and every count: after
+at most `depth` passes (the interpreter's recursion limit) the run has ended, either with
+RecursionError (`none`) or in the state after `k + 1 ≤ depth` passes, the last of which did not
+change the count. -/
+theorem recursion_on_count_ends {σ : Type} (pass : σ → σ) (count : σ → Nat) (depth : Nat) (s : σ) :
+    Dcg.Model.Loops.resolveRec pass count depth s = none ∨
+      ∃ k, k < depth ∧
+        Dcg.Model.Loops.resolveRec pass count depth s = some (Dcg.Model.Loops.iter pass (k + 1) s) ∧
+        count (Dcg.Model.Loops.iter pass (k + 1) s) = count (Dcg.Model.Loops.iter pass k s) :=
+  Dcg.Proofs.Loops.resolveRec_ends pass count depth s
+
+/-- **"This pass appended nothing" is not a bound.** With a pass that appends a model every time (a
+reserved pointer that is never marked as loaded, e.g. one with an empty segment) the recursion ends
+with RecursionError for every limit, and the same repetition written as `while the count changed` is
+still running after any number of passes.  This is why `independentExit` does not accept
+`countUnchanged`. -/
+theorem count_exit_alone_is_no_bound :
+    (∀ depth s, Dcg.Model.Loops.resolveRec (fun n : Nat => n + 1) id depth s = none) ∧
+    (∀ fuel s, Dcg.Model.Loops.resolveWhile (fun n : Nat => n + 1) id fuel s = none) :=
+  ⟨Dcg.Proofs.Loops.resolveRec_growing_is_error, Dcg.Proofs.Loops.count_exit_alone_can_diverge⟩
+
+/-- …whereas under the hypotheses of `growing_bounded_stabilises` (count never decreases and is
+bounded by `U`) the `while` form ends within `U + 1` passes — the hypothesis, not the loop, is what
+the code fails to provide. -/
+theorem while_on_bounded_count_ends {σ : Type} (pass : σ → σ) (count : σ → Nat) (U : Nat)
+    (mono : ∀ s, count s ≤ count (pass s)) (bound : ∀ s, count s ≤ U) (s : σ) :
+    (Dcg.Model.Loops.resolveWhile pass count (U + 1) s).isSome = true :=
+  Dcg.Proofs.Loops.resolveWhile_bounded_ends pass count U mono bound (U + 1) s (by omega)
+
+/-- non-vacuity: a pass that grows twice and then stays ends after three passes in both forms; the
+shapes as they are accepted / rejected -/
+example : Dcg.Model.Loops.resolveRec (fun n => min (n + 1) 2) id 1000 0 = some 2 := by decide
+example : Dcg.Model.Loops.resolveWhile (fun n => min (n + 1) 2) id 3 0 = some 2 := by decide
+example : Dcg.Model.Loops.independentExit ("f.py", "g", "while", "n != len(self.results)", ["countUnchanged"]) = false := by decide
+example : Dcg.Model.Loops.independentExit ("f.py", "g", "while", "True", ["other:x", "iterationLimit"]) = true := by decide
 
 /-- **Template text is lexically closed around every interpolation site** (proved in
 `Dcg/Props/C10.lean` by the kernel over the site table regenerated from the Jinja sources on this
